@@ -77,6 +77,9 @@ def histories(tier):
         [('auth', 'R'), ('remove', 'R')],
         [('auth', 'R'), ('clear', None)],
         [('cached', 'R'), ('clear', None), ('cached', 'R2')],
+        # X: same owner and class, independent address (equal to R's or not): removing it may only remove R when it IS R's key
+        [('auth', 'R'), ('remove', 'X')],
+        [('cached', 'R'), ('remove', 'X')],
     ]
     if tier == 'thorough':
         H += [
@@ -217,10 +220,11 @@ def run_task(prog, tid, params, tier):
         # expiry
         L.append('    let mut mgr = ResourceRecordManager::new();')
         addr = VG.ev(m, I.recs['R'].f[3].f[0].f[0])
-        for nm_ in ('R', 'R2'):
+        for nm_ in ('R', 'R2', 'X'):
             r = I.recs[nm_]
             L.append('    let %s = rec(%s, CLASS::IN, %d, %s, RData::A(A { address: %d }));' % (
-                nm_.lower(), rs_name(m, pool, 'n1'), VG.ev(m, r.f[2]), 'true' if VG.ev(m, r.f[4]) else 'false', addr))
+                nm_.lower(), rs_name(m, pool, 'n1'), VG.ev(m, r.f[2]), 'true' if VG.ev(m, r.f[4]) else 'false',
+                VG.ev(m, r.f[3].f[0].f[0])))
         k = 0
         clock = [VG.ev(m, c) for c in I.clock]
         for op, which in params['hist']:
@@ -233,14 +237,21 @@ def run_task(prog, tid, params, tier):
                 L.append('    mgr.remove_resource_record(&%s);' % which.lower())
             else:
                 L.append('    mgr.clear();')
-        # sleep so that the real clock is on the same side of the expiry as in the model
-        nadds = k
-        sleep_ms = 0
-        if nadds and len(clock) > nadds:
-            sleep_ms = min(4000, max(0, (clock[-1] - clock[nadds - 1]) // 1000000)) + (150 if clock[-1] > clock[nadds - 1] else 0)
-        L.append('    std::thread::sleep(std::time::Duration::from_millis(%d));' % sleep_ms)
+        # sleep before each clock-reading query so that the real clock is on the same side of the expiry as in the model
+        # (the model's clock readings: one per add_cached_resource, then one per cached / all filter query)
         L.append('    let name = %s;' % rs_name(m, pool, 'n1'))
-        L.append('    let counts = [count(&mgr, &name, DomainResourceFilter::authoritative(false)), count(&mgr, &name, DomainResourceFilter::authoritative(true)), count(&mgr, &name, DomainResourceFilter::cached()), count(&mgr, &name, DomainResourceFilter::all())];')
+        L.append('    let mut counts = [0usize; 4];')
+        prev = clock[k - 1] if k else (clock[0] if clock else 0)
+        ci = k
+        flts = ['DomainResourceFilter::authoritative(false)', 'DomainResourceFilter::authoritative(true)', 'DomainResourceFilter::cached()', 'DomainResourceFilter::all()']
+        for qi, (fname, fargs, groups, tq) in enumerate(res.value):
+            if tq is not None and ci < len(clock):
+                now = clock[ci]
+                ci += 1
+                if k and now > prev:
+                    L.append('    std::thread::sleep(std::time::Duration::from_millis(%d));' % (min(4000, (now - prev) // 1000000) + 150))
+                prev = max(prev, now)
+            L.append('    counts[%d] = count(&mgr, &name, %s);' % (qi, flts[qi]))
         L.append('    println!("REPLAY-RESULT {{\\"outcome\\":\\"ok\\",\\"counts\\":[{},{},{},{}]}}", counts[0], counts[1], counts[2], counts[3]);')
         L.append('}')
         return '\n'.join(L)
@@ -445,6 +456,10 @@ def run_task(prog, tid, params, tier):
                 recs[nm] = g.struct('ResourceRecord', name=pool.name('n1'), **{'class': En('CLASS', 'IN')},
                                     ttl=g.fresh('u32', 'ttl' + nm), rdata=En('RData', 'A', (g.struct('A', address=addr),)),
                                     cache_flush=g.fresh('bool', 'fl' + nm))
+            addrx = g.fresh('u32', 'addrx')
+            recs['X'] = g.struct('ResourceRecord', name=pool.name('n1'), **{'class': En('CLASS', 'IN')},
+                                 ttl=g.fresh('u32', 'ttlX'), rdata=En('RData', 'A', (g.struct('A', address=addrx),)),
+                                 cache_flush=g.fresh('bool', 'flX'))
             I.recs = recs
             I.clock = []
             status = ('absent',)
@@ -464,7 +479,8 @@ def run_task(prog, tid, params, tier):
                         status = ('cached', I.clock[-1].z() + eff * 1000000000)
                 elif op == 'remove':
                     I.call_function(f_rm, [mgr, I.new_ref(recs[which], 'rm')], {})
-                    status = ('absent',)
+                    if which != 'X' or I.ctx.branch(addrx.z() == addr.z()):
+                        status = ('absent',)
                 elif op == 'clear':
                     I.call_function(f_clear, [mgr], {})
                     status = ('absent',)
@@ -504,11 +520,21 @@ def run_task(prog, tid, params, tier):
                         expect = z3.ULT(tq, st[1])
                 if n > 1:
                     return viol(res, 'duplicate', 'the same record is returned %d times by filter %s' % (n, fname))
-                small = z3.And([z3.ULE(r_.f[2].z(), 2) for r_ in I.recs.values()] +
+                small = z3.And([z3.ULE(r_.f[2].z(), 2) for k_, r_ in I.recs.items() if k_ != 'X'] +
                                [z3.ULE(I.clock[-1].z() - c_.z(), 3000000000) for c_ in I.clock])
                 if res.ctx.check(z3.BoolVal(n == 1) != expect):
-                    if not res.ctx.check(z3.BoolVal(n == 1) != expect, small):     # prefer a model replayable with real sleeps
-                        res.ctx.check(z3.BoolVal(n == 1) != expect)
+                    # prefer a witness that real sleeps reproduce robustly: no time passing at all, else small TTLs with every
+                    # clock step k s + 0.5 s (well away from the whole-second expiry instants), else small, else any
+                    cl = I.clock
+                    same = z3.And([z3.BoolVal(True)] + [cl[i + 1].z() == cl[i].z() for i in range(len(cl) - 1)])
+                    half = z3.And([z3.BoolVal(True)] + [z3.Or(cl[i + 1].z() == cl[i].z(), z3.URem(cl[i + 1].z() - cl[i].z(), 1000000000) == 500000000)
+                                                       for i in range(len(cl) - 1)])
+                    bad = z3.BoolVal(n == 1) != expect
+                    import os as _os
+                    if _os.environ.get('MIRSYM_DEBUG'):
+                        print('DBG tiers', res.ctx.check(bad, small, same), res.ctx.check(bad, same), res.ctx.check(bad, small), len(cl), file=__import__('sys').stderr)
+                    if not (res.ctx.check(bad, small, same) or res.ctx.check(bad, small, half) or res.ctx.check(bad, small)):
+                        res.ctx.check(bad)
                     m = res.ctx.model()
                     want = []
                     for f2, a2, g2, tq2 in res.value:
